@@ -82,6 +82,27 @@ CLAIMED = {
             "lock scopes are generated facts. Real threads are co-simulated with the model on identical schedules (all schedules of length 9/11 "
             "for 2 threads, 6/8 for 3). Receivers (each message intact to exactly one thread) are held by the oracle on real threads only.",
             "Lock acquire/release atomic; bytecode-level races inside a line not modelled.", "DESIGN.md §6 C12"),
+    "C13": ("Lean 4 theorems C13_trace (callback trace = Spec trace for all legal histories, callback subsets, raising callbacks, plain/TLS), C13_open_first, C13_prompt" + T_CORR + " under a virtual-time baton scheduler (harness/simsched.py)",
+            "Proof over the App model (run_forever, both built-in dispatchers, callbacks, close handshake): the ordered callback trace with "
+            "ticks equals the Spec's for every history/gap/burst, every subset of callbacks and every raising plan; select returns at once when "
+            "the next event has arrived. C13_trace/C13_open_first assume keepalive and reconnect off (those are C15/C16). The real "
+            "run_forever runs under the scheduler on the same world/plan/schedule; traces must be identical; Spec predicates judge the real trace.",
+            "The app consumes already-parsed events (byte level = C02-C07 layer); kernel/SSL buffering as simulated.", "DESIGN.md §6 C13"),
+    "C14": ("Lean 4 theorems C14_once_last, C14_return_value, C14_clean, C14_rerun (all worlds/plans/schedules), C14_terminates, C14_close_args (one connection), C14_app_close_counterexample" + T_CORR + " incl. second-thread close at every executed line",
+            "Proof: on_close once and last, return value, resources gone, re-run = first run, for every world, every callback plan (close / "
+            "KeyboardInterrupt / raise anywhere) and schedule; termination and close arguments for one connection with legal traffic. "
+            "Second-thread close (C14_async_close_safe) is NOT modelled: checked on real runs only (preemption at ticks and at every executed "
+            "line). Open findings F13 (close() inside on_open/on_reconnect; second-thread race in teardown) are recorded in known_findings.json "
+            "with qualified signatures and printed as KNOWN-FINDING.", "", "DESIGN.md §6 C14"),
+    "C15": ("Lean 4 theorems C15_resources (<=1 transport and <=1 ping thread at every prefix, fully general), C15_stops, C15_retry, C15_interval" + T_CORR,
+            "Proof: resource bound for every world/plan/schedule; the reconnect loop does nothing once keep_running is cleared and a server "
+            "close frame or close() clears it; retry skeleton and exact interval for failed first attempts followed by any number of failures. "
+            "The external dispatcher is not modelled (real runs + Spec only); open findings F16 / F13-external recorded.", "", "DESIGN.md §6 C15"),
+    "C16": ("Lean 4 theorems C16_args (iff), C16_periodic, C16_no_false_positive (all data traffic/schedules), C16_detect_partial (iv > 2*to) + proved counterexamples for F12" + T_CORR + " in virtual time",
+            "Proof: argument validation exactly as documented and before connecting; pings at start+k*iv; a peer answering every ping within "
+            "the timeout is never reported; detection within (T+to, T+2*to] when iv > 2*to. For to < iv <= 2*to the property is FALSE of the "
+            "code (F12, proved counterexample, recorded open finding with regime-qualified signatures); an unsolicited late pong reports a "
+            "responsive peer (F12). Oracle-only scenario: ping thread descheduled right after a ping was written.", "", "DESIGN.md §6 C16"),
     "C17": ("Lean 4 theorems C17_frame_no_internal, C17_message_no_internal, C17_request_sizes (unconditional), C17_head_no_internal" + T_CORR,
             "Proof: on arbitrary bytes in any chunking followed by eof/silence recv_frame returns a frame or PROTO/CLOSED/TIMEOUT, and "
             "recv_data_frame a value or PROTO/PAYLOAD/CLOSED/TIMEOUT/transport error — never an internal error, never out of fuel (each loop "
@@ -102,7 +123,7 @@ CLAIMED = {
             "http.cookies.SimpleCookie's parser is not modelled (canonical Set-Cookie strings only).", "DESIGN.md §6 C20"),
 }
 
-PENDING_REASON = "WebSocketApp layer: model, theorems and virtual-time harness are being built on a work branch (DESIGN.md §6 C13-C16); not merged yet, no check is claimed until they are"
+PENDING_REASON = "not claimed"
 
 
 def main():
@@ -137,6 +158,8 @@ def main():
         "engines": [
             {"name": "lean-model", "path": "lean/", "serves_properties": sorted(CLAIMED),
              "kind_free_text": "Lean 4 model + Spec + theorems (lake project, no Mathlib in the model); compiled driver `wsdriver` speaks a line protocol"},
+            {"name": "simsched", "path": "harness/simsched.py", "serves_properties": ["C13", "C14", "C15", "C16"],
+             "kind_free_text": "deterministic virtual-time scheduler for the real WebSocketApp.run_forever (real threads under a baton, replayable schedules, line-level preemption)"},
             {"name": "py-correspondence", "path": "harness/", "serves_properties": sorted(CLAIMED),
              "kind_free_text": "Python harness: AST translator for tables (extract.py), simulated transports, generators, differential comparison model vs real code, Spec oracle on real outputs"},
         ],
